@@ -327,7 +327,8 @@ pub fn run(p: &Params) -> Report {
     }
     let n = p.budget(12_000, 500_000);
     for i in 0..n {
-        scenario(p.shard_seed(0x03_0000 + i), &mut rep);
+        let seed = p.shard_seed(0x03_0000 + i);
+        crate::util::guarded(&mut rep, seed, |rep| scenario(seed, rep));
     }
     rep
 }
